@@ -11,6 +11,48 @@ widens the trigger; the replacement containers are CrossHair's own.
 from crosshair import opcode_intercept as oi
 
 
+import z3 as _z3
+from crosshair.libimpl import builtinslib as _bl
+from crosshair.tracers import NoTracing as _NoTracing
+
+
+class CharRangeSet:
+    """Replacement for a set/frozenset whose members are all 1-character strings (asciiLetters, spaceCharacters,
+    digits, hexDigits ...) when a SYMBOLIC character is tested with `in`: membership becomes ONE symbolic boolean
+    (a disjunction of code-point ranges) instead of one fork per element (LinearSet), i.e. 2 paths instead of 52."""
+    def __init__(self, orig):
+        self.orig = orig
+        cps = sorted(ord(c) for c in orig)
+        rs = []
+        for cp in cps:
+            if rs and rs[-1][1] == cp - 1:
+                rs[-1][1] = cp
+            else:
+                rs.append([cp, cp])
+        self.ranges = rs
+
+    def __contains__(self, item):
+        if not isinstance(item, str):
+            return False
+        if len(item) != 1:
+            return False
+        cp = ord(item)
+        with _NoTracing():
+            if isinstance(cp, _bl.SymbolicInt):
+                v = cp.var
+                return _bl.SymbolicBool(_z3.Or(*[_z3.And(v >= lo, v <= hi) if lo != hi else v == lo for lo, hi in self.ranges]))
+        return chr(cp) in self.orig
+
+    def __iter__(self):
+        return iter(self.orig)
+
+    def __len__(self):
+        return len(self.orig)
+
+
+_charset_cache = {}
+
+
 def _install(oi=oi):
     if getattr(oi.ContainmentInterceptor, "_verif_widened", False):
         return
@@ -32,6 +74,20 @@ def _install(oi=oi):
         container = oi.frame_stack_read(frame, -1)
         ct = type(container)
         if ct is frozenset or ct is set:
+            if ct is frozenset and len(container) > 1:
+                key = id(container)
+                hit = _charset_cache.get(key)
+                if hit is None:
+                    ok = True
+                    for m in container:
+                        if type(m) is not str or len(m) != 1:
+                            ok = False
+                            break
+                    hit = (container, CharRangeSet(container) if ok else False)
+                    _charset_cache[key] = hit
+                if hit[1] is not False and hit[0] is container and isinstance(item, oi.CrossHairValue):
+                    oi.frame_stack_write(frame, -1, hit[1])
+                    return
             oi.frame_stack_write(frame, -1, oi.ShellMutableSet(oi.LinearSet(container)))
             return
         if isinstance(container, dict):
